@@ -362,7 +362,7 @@ class Sys:
         # client frames: stream ids must be opened in increasing order
         for i in range(self.n):
             script = CLIENT_SHAPES[cfg["cs"][i]]
-            if self.cprog[i] >= len(script) or self.c.conn_error or self.c.terminated or w.client.w.closed:
+            if self.cprog[i] >= len(script) or self.c.dead or w.client.w.closed:
                 continue
             a = script[self.cprog[i]]
             if a[0] == "H":
@@ -389,18 +389,19 @@ class Sys:
         # lowering the limit
         if cfg["lower"] is not None:
             for k, u in enumerate(self.ups):
-                if isinstance(u, Up2) and u.preface_out and not u.lowered and not u.peer.conn_error and not u.peer.terminated:
+                if isinstance(u, Up2) and u.preface_out and not u.lowered and not u.peer.dead:
                     acts.append(("lower", k))
         # flow-control grants
         if cfg["win"] is not None:
             for k, u in enumerate(self.ups):
-                if isinstance(u, Up2) and u.preface_out:
+                if isinstance(u, Up2) and u.preface_out and not u.peer.dead:
                     for sid in sorted(u.peer.unacked):
                         if u.peer.unacked[sid] > 0:
                             acts.append(("sgrant", k, sid))
-            for sid in sorted(self.c.unacked):
-                if self.c.unacked[sid] > 0:
-                    acts.append(("cgrant", sid))
+            if not self.c.dead:
+                for sid in sorted(self.c.unacked):
+                    if self.c.unacked[sid] > 0:
+                        acts.append(("cgrant", sid))
         return acts
 
     def _client_can(self, i, a):
@@ -421,7 +422,7 @@ class Sys:
             return False
         a = script[self.sprog[mi]]
         st = u.peer.streams[sid]
-        if st["reset"] is not None or u.peer.conn_error or u.peer.terminated:
+        if st["reset"] is not None or u.peer.dead:
             return False
         if a[0] == "R":
             s = u.peer.conn.streams.get(sid)
